@@ -6,13 +6,15 @@ import shutil
 import sys
 import tempfile
 
-from .. import cfggen, cfgrun, cfgstream, core, elabrun, pkggen, schemafam as F
+from .. import cfggen, cfgrun, cfgstream, core, elabrun, pkggen, prefixfam as P, schemafam as F
 from ..sexp import enc
 
 RULE = ("(a) generated schemas using sectiontype extends (chains up to 3, key type / datatype overrides, wildcard defaults with "
         "mixed-case keys) against their mechanical expansion (base children first, implements not inherited): equal structural "
         "digest and equal outcome on the C01 texts; (b) prefixes (schema / sectiontype / component level, absolute and relative, "
-        "nested 3 deep) against absolute dotted names over generated datatype packages; (c) schema-level extends of 1..3 bases "
+        "nested 3 deep) against absolute dotted names over generated datatype packages, and a generated family combining prefixes with "
+        "extends (derived types written under another prefix than their base, chains) and component imports (components with their own prefix, "
+        "packages named relative to the prefix) against the expansion 'nearest enclosing prefix + name', types in place; (c) schema-level extends of 1..3 bases "
         "against the merged schema; (d) component imports once / repeated / diamond / mutually importing / self-importing against defining the types in place. "
         "non-trivial = composed schema with >= 1 derived or prefixed item; distinct by document")
 
@@ -51,24 +53,7 @@ def same_behaviour(ctx, sd_a, real_a, sd_b, real_b, elab, rng, ntexts):
     return None
 
 
-DT_MODULE = '''
-def up(v):
-    return "%s:" + v.upper()
-
-def wrapsect(s):
-    return ("%s", [getattr(s, a) for a in s.getSectionAttributes()])
-'''
-
-
-def make_dt_packages(root, stem):
-    """stem, stem.sub, stem.sub.deep each with up()/wrapsect() tagged by their dotted name"""
-    names = [stem, stem + ".sub", stem + ".sub.deep", stem + "other"]
-    for n in names:
-        d = os.path.join(root, *n.split("."))
-        os.makedirs(d, exist_ok=True)
-        with open(os.path.join(d, "__init__.py"), "w") as f:
-            f.write(DT_MODULE % (n, n))
-    return names
+make_dt_packages = P.make_dt_packages     # (also used by props/c02.py)
 
 
 def run(ctx):
@@ -197,8 +182,9 @@ def run(ctx):
     stem = "zcvc11p%d" % os.getpid()
     pk = pkggen.PkgRoot()
     try:
-        pkgs = make_dt_packages(root, stem)
+        have = P.make_dt_packages(root, stem)
         _prefixes(ctx, rng, stem)
+        _prefix_family(ctx, rng, root, have)
         _schema_extends(ctx, rng, root)
         _components(ctx, rng, pk)
     finally:
@@ -277,6 +263,123 @@ def _prefixes(ctx, rng, stem):
                 ctx.violate("a prefixed schema behaves differently from the same schema with absolute names on %r: %r vs %r" % (t, ra, rb),
                             {"composed": comp, "expanded": exp, "text": t}, signature="%s:prefix:behaviour" % ctx.prop)
                 break
+
+
+def _pf_compare(ctx, root, doc):
+    """composed document vs its two expansions on the real loader: None, or (kind, description, replay)"""
+    P.write_components(root, doc, overwrite=True)
+    comp = P.render_composed(doc)
+    exp, done = P.render_expanded(doc)
+    inl, _ = P.render_expanded(doc, inline_extends=True)
+    forms = (("relative names replaced by nearest enclosing prefix + name, components in place", exp),
+             ("the same with every extends written out", inl))
+    rep = {"composed": comp, "components": {"%s:%s" % (c.pkg, c.file): P.render_component(c) for _, c in doc.imports}}
+    ra = _accepts(comp)
+    for form, x in forms:
+        rb = _accepts(x)
+        if ra != rb:
+            rep.update({"expanded": x, "form": form, "composed_outcome": ra, "expanded_outcome": rb})
+            return "load", "a schema combining prefixes with extends / imports is %s, its expansion (%s) is %s" % (ra, form, rb), rep
+    if ra != "accepted":
+        return None
+    a = _load(comp)
+    da = enc(F.digest(a)[1:3])
+    texts = P.texts_for(doc, done)
+    for form, x in forms:
+        b = _load(x)
+        for t in texts:
+            oa, ob = _behaves(a, t), _behaves(b, t)
+            ctx.evaluations += 1
+            if oa != ob:
+                rep.update({"expanded": x, "form": form, "text": t, "composed_outcome": oa, "expanded_outcome": ob})
+                return "behaviour", ("a schema combining prefixes with extends / imports behaves differently from its expansion (%s) on %r: "
+                                     "%r vs %r" % (form, t, oa, ob)), rep
+        if da != enc(F.digest(b)[1:3]):
+            rep.update({"expanded": x, "form": form})
+            return "structure", ("a schema combining prefixes with extends / imports differs structurally from its expansion (%s): some name "
+                                 "is resolved to another function" % form), rep
+    return None
+
+
+def _pf_shrink(ctx, root, doc, kind):
+    """greedy removal of keys, types nobody extends, repeated imports and emptied components while the same kind of difference remains"""
+    def smaller(d):
+        owners = [c for _, c in d.imports] + [d]
+        extended = {t.extends for o in owners for t in o.types if t.extends}
+        for o in owners:
+            for i, t in enumerate(o.types):
+                if t.name not in extended:
+                    d2 = copy.deepcopy(d)
+                    o2 = ([c for _, c in d2.imports] + [d2])[owners.index(o)]
+                    del o2.types[i]
+                    d2.sects = [x for x in d2.sects if x[0] != t.name]
+                    d2.imports = [(w, c) for w, c in d2.imports if c.types]
+                    yield d2
+                for j in range(len(t.keys)):
+                    d2 = copy.deepcopy(d)
+                    o2 = ([c for _, c in d2.imports] + [d2])[owners.index(o)]
+                    del o2.types[i].keys[j]
+                    yield d2
+        for i in range(len(d.keys)):
+            d2 = copy.deepcopy(d)
+            del d2.keys[i]
+            yield d2
+        for i in range(len(d.sects)):
+            d2 = copy.deepcopy(d)
+            del d2.sects[i]
+            yield d2
+        for i, (w, c) in enumerate(d.imports):
+            if any(c2 is c for _, c2 in d.imports[:i]):
+                d2 = copy.deepcopy(d)
+                del d2.imports[i]
+                yield d2
+    best, progress, budget = doc, True, 400
+    while progress and budget > 0:
+        progress = False
+        for cand in smaller(best):
+            budget -= 1
+            try:
+                r = _pf_compare(ctx, root, cand)
+            except Exception:
+                r = None
+            if r is not None and r[0] == kind:
+                best, progress = cand, True
+                break
+            if budget <= 0:
+                break
+    return best
+
+
+def _prefix_family(ctx, rng, root, have):
+    """generated schemas combining prefixes (schema / sectiontype / component level, absolute and relative) with sectiontype
+    extends and component imports - in particular derived types written under another prefix than their base (own prefix on
+    the base, base imported from a component with its own prefix, chains) - against their mechanical expansion (prefixfam):
+    real vs real on acceptance, directed texts and structure; composed and expanded documents also against the Lean model"""
+    n = 1500 if ctx.thorough() else 150
+    docs, model_docs = [], []
+    for i in range(n):
+        g = P.Gen(rng, have, i)
+        doc = g.gen_doc()
+        P.write_components(root, doc)
+        for k, v in g.stats.items():
+            ctx.count("prefix-family:%s" % k, v)
+        docs.append(doc)
+        model_docs.extend([P.render_composed(doc), P.render_expanded(doc)[0]])
+    elabrun.compare(ctx, "prefix-family", model_docs)
+    reported = set()
+    for doc in docs:
+        ctx.evaluations += 1
+        ctx.nontriv(P.render_composed(doc))
+        r = _pf_compare(ctx, root, doc)
+        ctx.count("prefix-family:%s" % ("differs:" + r[0] if r else "agrees"))
+        if r is None or r[0] in reported:
+            continue
+        reported.add(r[0])
+        small = _pf_shrink(ctx, root, doc, r[0])
+        r2 = _pf_compare(ctx, root, small)
+        if r2 is not None and r2[0] == r[0]:
+            r = r2
+        ctx.violate(r[1], r[2], signature="C11:prefix-family:" + r[0])
 
 
 def _schema_extends(ctx, rng, root):
